@@ -116,10 +116,13 @@ def run_corpus(prop: str, root: str | None = None, jobs: int = 16) -> dict:
     return {
         "refactorings": len(r_ref),
         "refactorings_silent": sum(r["status"] == "silent" for r in r_ref),
-        "refactoring_alarms": [r for r in r_ref if r["status"] != "silent"],
+        "refactoring_alarms": [r for r in r_ref if r["status"] not in ("silent", "does-not-apply")],
+        # written for a commit whose context a later repair changed: tools/harness.py evaluates these on the tree of that commit
+        "refactorings_for_an_earlier_tree": [r["name"] for r in r_ref if r["status"] == "does-not-apply"],
         "seeded_for_this_property": len(r_seed),
         "seeded_reported_by_this_check": [r["name"] for r in r_seed if r["status"] == "alarm"],
-        "seeded_not_reported_by_this_check": [r["name"] for r in r_seed if r["status"] != "alarm"],
+        "seeded_not_reported_by_this_check": [r["name"] for r in r_seed if r["status"] not in ("alarm", "does-not-apply")],
+        "seeded_for_an_earlier_tree": [r["name"] for r in r_seed if r["status"] == "does-not-apply"],
     }
 
 
